@@ -293,6 +293,7 @@ func CheckC12(c *Ctx) int {
 		}
 		os.Remove(bf.Path)
 	}
+	c.bigFreelistFile()
 	c.traces = len(evs) + len(big)
 	c.Cov["evaluations"] = len(evs) + len(big)
 	c.Cov["distinct_nontrivial"] = nt + len(evs)
@@ -464,4 +465,49 @@ func CheckC11(c *Ctx) int {
 	c.Cov["exhaustive"] = c.Thorough()
 	c.Cov["rule"] = "one damaged copy per (file, meta slot, byte position 0..63 of the meta structure, replacement value) - all 255 values in the thorough tier, 3-4 per position in the quick tier - plus every prefix overwrite (1..64 bytes) by the would-be next meta, both metas damaged, truncated and non-database files; each is opened with the real code and TLC decides from the damaged bytes (Format.MetaAt with FNV-1a-64) which meta must be presented; all cases are distinct by construction"
 	return c.Finish(nil)
+}
+
+// bigFreelistFile (thorough tier): a real file whose freelist page holds more than 65534 ids; the
+// independent decoder (0xFFFF rule) must agree with the API (free count, Tx.Check) and the accounting.
+func (c *Ctx) bigFreelistFile() {
+	path := filepath.Join(c.WorkDir, "bigfl.db")
+	db, err := bolt.Open(path, 0o600, &bolt.Options{PageSize: 1024, Timeout: time.Second, InitialMmapSize: 1 << 28})
+	if err != nil {
+		c.Infra = append(c.Infra, "bigfl: "+err.Error())
+		return
+	}
+	db.AllocSize = 1 << 24
+	val := make([]byte, 900)
+	key := func(i int) []byte { return []byte(fmt.Sprintf("k%07d", i)) }
+	n := 72000
+	for a := 0; a < n; a += 6000 {
+		_ = db.Update(func(tx *bolt.Tx) error {
+			b, _ := tx.CreateBucketIfNotExists([]byte("b"))
+			for i := a; i < a+6000; i++ {
+				_ = b.Put(key(i), val)
+			}
+			return nil
+		})
+	}
+	_ = db.Update(func(tx *bolt.Tx) error { return tx.DeleteBucket([]byte("b")) })
+	_ = db.Update(func(tx *bolt.Tx) error { _, err := tx.CreateBucketIfNotExists([]byte("c")); return err })
+	free := db.Stats().FreePageN
+	pend := db.Stats().PendingPageN
+	_ = db.Close()
+	d, err := DecodeFile(path)
+	if err != nil {
+		c.Infra = append(c.Infra, "bigfl: "+err.Error())
+		return
+	}
+	obs := ObserveOpenSub(path, "small", 1024, false)
+	c.Cov["big_freelist_file"] = map[string]any{"ids_in_freelist_page": len(d.FreeIDs), "api_free": free, "api_pending": pend, "check_errors": obs.CheckErrs, "decoder_problems": len(d.Problems)}
+	if len(d.FreeIDs) < 65535 {
+		c.Infra = append(c.Infra, fmt.Sprintf("bigfl: only %d ids in the freelist page (need > 65534)", len(d.FreeIDs)))
+		return
+	}
+	if len(d.FreeIDs) != free+pend || !d.Consistent() || obs.CheckErrs != 0 || !obs.Opened {
+		c.Findings = append(c.Findings, Finding{Scenario: Scenario{Name: "big-freelist-file", Kind: "format"}, Spec: "decoder",
+			Detail: fmt.Sprintf("file with %d listed ids: API reports free %d + pending %d, check errors %d, decoder problems %v", len(d.FreeIDs), free, pend, obs.CheckErrs, d.Problems)})
+	}
+	os.Remove(path)
 }
